@@ -105,6 +105,24 @@ PROPS = {
              "Found and repaired: persistent scalars used inside clauses got no dependency edge.",
         note="Does not decide that equal dependency graphs give equal run() results. Operand-mutation sites present on the reference "
              "tree are a frozen, reasoned table (not triaged for genuine order dependence); new sites are violations."),
+
+    "C15": dict(
+        claimed=True, design="§3 C15",
+        technique="lint over every SQL skeleton (f-string/constant with typed holes) and .sql macro body: tokeniser + window/aggregate/LIMIT/DISTINCT ON/nondeterministic-function rules; who-may-call rule for partial fetch APIs; guard-emission pairing in the OVER-clause builder",
+        text="Decides the necessary structural condition for determinism under any thread count / storage mode: since the engine is "
+             "configured with preserve_insertion_order=false (premise read from the source), no emitted SQL may contain a construct "
+             "whose value depends on row order without a total ORDER BY, and results must be fetched completely. Every SQL text the "
+             "engine can emit is a Python string in the repository, so the lint covers all of them. Does not decide floating-point "
+             "summation-order effects or spill behaviour.",
+        note="Known finding: the enumerated viral-attribute fold list_reduce(list(col)) is order-dependent (demonstrated). Reasoned "
+             "exemption: union's ROW_NUMBER() OVER () (could not be made to misbehave on DuckDB 1.5.5)."),
+    "C33": dict(
+        claimed=True, design="§3 C33",
+        technique="the C15 order-dependence lint + def-use chain from the CSV header read to the positional read_csv column map + explicit INSERT column lists + no positional sampling of values in the loaders",
+        text="Decides row-order independence at the level of emitted SQL (same lint as C15) and column-order independence of all three "
+             "loaders: the positional read_csv column map is ordered by the file's own header and never re-ordered, DataFrame/Parquet "
+             "inserts name their columns, and no loader decision is taken from a positional sample of the data.",
+        note="Trusts DuckDB's set semantics for the rest. Same known finding as C15."),
 }
 
 NA_REASONS = {
